@@ -193,7 +193,7 @@ def main():
     trusted = sorted(n for n, c in cs.funcs.items() if c.kind == 'func' and c.trusted)
     externs = sorted(n for n, c in cs.funcs.items() if c.kind in ('extern', 'functype', 'iface'))
     opts = {'timeout': 5000 if tier == 'quick' else 30000, 'seed': seed, 'inner_jobs': 1}
-    if tier == 'thorough': opts['overflow'] = True
+    if tier == 'thorough': opts['overflow'] = True; opts['budget_s'] = 1500
     _G.update(prog=prog, cs=cs, opts=opts)
     import multiprocessing as mp
     from concurrent.futures import ProcessPoolExecutor, as_completed
